@@ -98,7 +98,7 @@ def main():
         ref = reflex.RefLexer(d, builtins)
         dd = corpus.split_dump(corpus.read_dump(dump, nm))
         sw = corpus.dump_switch_table(dd['body'])
-        num2name = {v: k for k, v in sw.items()} if sw else {0: ''}
+        num2name = {v: k for k, v in sw.items()} if sw else {0: '_'}
         for c in allcases[nm]:
             ncase += 1
             it = impl.get((nm, c['id']))
